@@ -9,9 +9,10 @@ import (
 
 // endings of a bar used by several families
 type ending struct {
-	name string
-	rm   bool // BarRemoveOnComplete
-	ops  func(b int) []Op
+	name  string
+	total int64 // 0 = default (2)
+	rm    bool  // BarRemoveOnComplete
+	ops   func(b int) []Op
 	// expectations
 	gone      bool // absent from the final frame
 	completed bool
@@ -25,6 +26,8 @@ var endings = []ending{
 	{name: "abortdrop", ops: func(b int) []Op { return []Op{{K: "abort", B: b, F: true}} }, gone: true, aborted: true},
 	{name: "rm", rm: true, ops: func(b int) []Op { return completeOps(b, 2) }, gone: true, completed: true},
 	{name: "setcur", ops: func(b int) []Op { return []Op{{K: "setcur", B: b, N: 5}} }, completed: true},
+	// a bar with unknown total aborted while current == total: must end aborted, not completed
+	{name: "abort0", total: -1, ops: func(b int) []Op { return []Op{{K: "abort", B: b}} }, aborted: true},
 }
 
 func wrapD(wrap string) DecorSpec { return DecorSpec{Wrap: wrap, Widths: []int{4}} }
@@ -40,7 +43,11 @@ func endingPrograms(prefix string, refresh string, q int, n int, ends []ending, 
 		for i := 0; i < n; i++ {
 			e := ends[idx[i]]
 			names = append(names, e.name)
-			sp.Bars = append(sp.Bars, BarSpec{Total: 2, Rm: e.rm, Pre: []DecorSpec{wrapD("both")}, App: []DecorSpec{{Sync: true, Wrap: "both", Widths: []int{3, 5}}}})
+			tot := int64(2)
+			if e.total == -1 {
+				tot = 0
+			}
+			sp.Bars = append(sp.Bars, BarSpec{Total: tot, Rm: e.rm, Pre: []DecorSpec{wrapD("both")}, App: []DecorSpec{{Sync: true, Wrap: "both", Widths: []int{3, 5}}}})
 			sp.Main = append(sp.Main, Op{K: "add", B: i})
 			sp.Clients = append(sp.Clients, e.ops(i))
 		}
@@ -105,12 +112,72 @@ func c03Oracle(sp *Spec, x *X, res *mcrt.Result) (string, string) {
 		return "", ""
 	}
 	f := ParseFrame(x.Writes[x.WritesAtWait-1])
+	cancelled := false
+	for _, c := range x.Calls {
+		if c.Op == "cancel" {
+			cancelled = true
+		}
+	}
 	count := map[int]int{}
 	for _, id := range f.BarIDs() {
 		count[id]++
 	}
+	termFrames := func(b int) int {
+		t := 0
+		for _, w := range x.Writes[:x.WritesAtWait] {
+			if r := ParseFrame(w).Row(b); r != nil && r.Flags != "R" {
+				t++
+			}
+		}
+		return t
+	}
+	checkRow := func(b int, r *Row) (string, string) {
+		switch r.Flags {
+		case "C":
+			if r.Cur != r.Tot {
+				return "final-state-completed", fmt.Sprintf("bar %d shown completed with %d/%d", b, r.Cur, r.Tot)
+			}
+			if strings.Count(r.Raw, "done") != 2 {
+				return "on-complete-decoration", fmt.Sprintf("bar %d completed but its final row lacks the on-complete text: %q", b, r.Raw)
+			}
+		case "A":
+			if strings.Count(r.Raw, "abrt!") != 2 {
+				return "on-abort-decoration", fmt.Sprintf("bar %d aborted but its final row lacks the on-abort text: %q", b, r.Raw)
+			}
+		default:
+			return "final-state-running", fmt.Sprintf("bar %d is not in a final state in the last frame: %d/%d %s", b, r.Cur, r.Tot, r.Flags)
+		}
+		return "", ""
+	}
 	for b := range sp.Bars {
 		e := endingOf(sp, b)
+		if cancelled {
+			// an external cancellation races with the ending: which final state the bar reaches is decided by the race,
+			// but the last frame must show every bar once, in a final state, with matching decorations; a bar created
+			// with remove-on-complete that was already drawn in a final state twice has been dropped by that frame and
+			// the closing loop renders until nothing changes, so it cannot be in the last frame
+			if _, _, ok := addRet(x, b); !ok {
+				continue
+			}
+			if count[b] > 1 {
+				return "final-frame-membership", fmt.Sprintf("bar %d appears %d times in the final frame %s", b, count[b], f)
+			}
+			if count[b] == 0 {
+				if !sp.Bars[b].Rm && (e == nil || e.name != "abortdrop") {
+					return "final-frame-membership", fmt.Sprintf("bar %d is missing from the final frame %s", b, f)
+				}
+				continue
+			}
+			if sp.Bars[b].Rm && termFrames(b) >= 2 {
+				return "removed-bar-present", fmt.Sprintf("bar %d (remove-on-complete) was drawn in a final state %d times and is still in the final frame %s", b, termFrames(b), f)
+			}
+			if len(sp.Bars[b].Pre) > 0 {
+				if k, d := checkRow(b, f.Row(b)); k != "" {
+					return k, d
+				}
+			}
+			continue
+		}
 		if e == nil {
 			continue
 		}
@@ -124,21 +191,11 @@ func c03Oracle(sp *Spec, x *X, res *mcrt.Result) (string, string) {
 			return "final-frame-membership", fmt.Sprintf("bar %d (%s) appears %d times in the final frame %s", b, e.name, count[b], f)
 		}
 		r := f.Row(b)
-		switch {
-		case e.completed:
-			if r.Flags != "C" || r.Cur != r.Tot {
-				return "final-state-completed", fmt.Sprintf("bar %d completed but final frame shows %d/%d %s", b, r.Cur, r.Tot, r.Flags)
-			}
-			if strings.Count(r.Raw, "done") != 2 {
-				return "on-complete-decoration", fmt.Sprintf("bar %d completed but its final row lacks the on-complete text: %q", b, r.Raw)
-			}
-		case e.aborted:
-			if r.Flags != "A" {
-				return "final-state-aborted", fmt.Sprintf("bar %d aborted but final frame shows %d/%d %s", b, r.Cur, r.Tot, r.Flags)
-			}
-			if strings.Count(r.Raw, "abrt!") != 2 {
-				return "on-abort-decoration", fmt.Sprintf("bar %d aborted but its final row lacks the on-abort text: %q", b, r.Raw)
-			}
+		if e.completed && r.Flags != "C" || e.aborted && r.Flags != "A" {
+			return "final-state", fmt.Sprintf("bar %d (%s) is shown as %d/%d %s in the final frame", b, e.name, r.Cur, r.Tot, r.Flags)
+		}
+		if k, d := checkRow(b, r); k != "" {
+			return k, d
 		}
 	}
 	return "", ""
@@ -163,6 +220,13 @@ func init() {
 			}
 			for _, sp := range endingPrograms("c03m", "manual", -1, 1, endings, 3) {
 				items = append(items, specItems("C03", sp, bound, allStrats, nil, c03Oracle)...)
+			}
+			// external cancellation racing with the endings (a second bar never ends on its own)
+			for _, sp := range endingPrograms("c03c", "auto", -1, 1, endings, 0) {
+				sp.Bars = append(sp.Bars, BarSpec{Total: 9})
+				sp.Main = append(sp.Main, Op{K: "add", B: 1})
+				sp.Clients = append(sp.Clients, []Op{{K: "cancel"}})
+				items = append(items, specItems("C03", sp, bound+1, []int{mcrt.StratFIFO, mcrt.StratNewest}, nil, c03Oracle)...)
 			}
 			if tier == "thorough" {
 				for _, sp := range endingPrograms("c03", "auto", -1, 3, endings[:5], 0) {
